@@ -92,3 +92,136 @@ def random_schedule(rng, sid, props, chans_sc=None, chans_cs=None, budget=60000,
                             sc.add(a="recv", conn=conn, side=side, ch=c["id"])
     sc.heal_rounds(0 if len(conns) > 1 else conns[0], dt_main, live=live)
     return sc.s
+
+
+# ---------------------------------------------------------------------------------------------------------------
+# C06: hostile packets
+# ---------------------------------------------------------------------------------------------------------------
+import wire as W
+
+
+def fill(n, b=0xAB):
+    return bytes([b]) * n
+
+
+def hostile_structural(rng, full=True):
+    """Field-boundary packets (bytes) around what the receiving code inspects."""
+    out = []
+    chans = [0, 1, 2, 7, 255]
+    mids = [0, 1, 2, 3, 63, 64, 16383, 16384, (1 << 30) - 1, 1 << 30, (1 << 62) - 1]
+    ns = [1, 2, 3, 4, 5, 63, 64, 1000000]
+    for rel in (True, False):
+        for ch in chans:
+            for mid in rng.sample(mids, 4 if not full else len(mids)):
+                for n in ns:
+                    for idx in sorted(set([0, 1, n - 1, n, n + 1, 1 << 30, (1 << 62) - 1])):
+                        if idx < 0:
+                            continue
+                        for plen in (1, 1199, 1200) + ((0, 1201) if not rel else ()):
+                            if rng.random() < (1.0 if full else 0.08):
+                                out.append(("slice", W.slice_packet(rel, rng.choice([0, 5, 900, 1 << 40]), ch, mid, idx, n, fill(plen))))
+    for ch in chans:
+        for mid in mids:
+            out.append(("small", W.small_reliable(7, ch, [(mid, fill(rng.choice([0, 1, 1200])))])))
+        out.append(("small", W.small_reliable(7, ch, [])))
+        out.append(("small", W.small_unreliable(7, ch, [fill(0), fill(1200)])))
+        out.append(("small", W.small_reliable(7, ch, [(0, fill(600)), (0, fill(600)), (1, fill(0))])))
+        # announced message count larger than what follows
+        out.append(("small", bytes([0]) + W.varint(7) + bytes([ch]) + (65535).to_bytes(2, "big")))
+    for ranges in ([(0, 1)], [(0, 1), (2, 3)], [(0, 100000)], [(5, 6)], [((1 << 62) - 2, (1 << 62) - 1)], [(i * 2, i * 2 + 1) for i in range(65)],
+                   [(0, (1 << 62) - 1)]):
+        out.append(("ack", W.ack(9, ranges)))
+    # raw ack encodings around the arithmetic checks (end < size, start < gap + 2)
+    for fe in (0, 1, 2, 5):
+        for fs in (0, 1, 2, 6):
+            for gap in (0, 1, 2, 3, 4):
+                for size in (0, 1, 5):
+                    if rng.random() < (1.0 if full else 0.2):
+                        out.append(("ackraw", W.ack_raw(9, fe, fs, [(gap, size)])))
+    out.append(("ackraw", W.ack_raw(9, 10, 2, [(1, 1)] * 200)))
+    out.append(("ackraw", bytes([4]) + W.varint(9) + W.varint(10) + W.varint(0) + W.varint((1 << 62) - 1)))
+    return out
+
+
+def hostile_mutations(rng, samples, n_random):
+    """Truncations and header-byte replacements of valid sample packets, plus random strings."""
+    out = []
+    for b in samples:
+        for n in range(0, min(len(b), 24)):
+            out.append(("trunc", b[:n]))
+        out.append(("trunc", b[:-1]))
+        for pos in range(0, min(len(b), 14)):
+            for v in (0x00, 0x3F, 0x40, 0x7F, 0x80, 0xBF, 0xC0, 0xFF):
+                if b[pos] != v:
+                    out.append(("byte", b[:pos] + bytes([v]) + b[pos + 1:]))
+    for _ in range(n_random):
+        ln = rng.choice([0, 1, 2, 3, 5, 8, 17, 64, 300, 1300, 1400])
+        body = bytes(rng.getrandbits(8) for _ in range(ln))
+        if ln and rng.random() < 0.7:
+            body = bytes([rng.randint(0, 4)]) + body[1:]
+        out.append(("random", body))
+    return out
+
+
+def hostile_groups(rng):
+    """Multi-packet hostile inputs: slices of one message that contradict each other."""
+    out = []
+    for rel in (True, False):
+        for ch in (0, 1, 2):
+            for mid in (0, 1, 40):
+                for n1, n2 in ((2, 5), (5, 2), (3, 2), (2, 3), (2, 1), (1, 2), (2, 1000000), (1000000, 2)):
+                    for plen in (1200, 1):
+                        out.append([("nmismatch", W.slice_packet(rel, 11, ch, mid, 0, n1, fill(1200))),
+                                    ("nmismatch", W.slice_packet(rel, 12, ch, mid, 1, n2, fill(plen)))])
+                # the same slice twice, then the rest; completion followed by stale duplicates
+                out.append([("dupslice", W.slice_packet(rel, 11, ch, mid, 0, 2, fill(1200))),
+                            ("dupslice", W.slice_packet(rel, 12, ch, mid, 0, 2, fill(1200))),
+                            ("dupslice", W.slice_packet(rel, 13, ch, mid, 1, 2, fill(7))),
+                            ("dupslice", W.slice_packet(rel, 14, ch, mid, 1, 2, fill(7)))])
+    return out
+
+
+def hostile_schedules(rng, props, packets, per_run=2, victims=(1,), groups=()):
+    """Each run: a two-connection server; a session prefix brings connection 1 into some state class; hostile datagrams are
+    handed to one side of connection 1; afterwards both connections run good rounds and connection 2 must still deliver."""
+    chans = [chan(0, "U", maxmem=20000), chan(1, "RU", maxmem=20000), chan(2, "RO", maxmem=20000)]
+    scheds = []
+    rng.shuffle(packets)
+    allgroups = [packets[i:i + per_run] for i in range(0, len(packets), per_run)] + list(groups)
+    for i, group in enumerate(allgroups):
+        cfg = {"conns": [1, 2], "sc": chans, "cs": chans, "budget": 60000, "seqbase": 0, "midbase": 0, "props": props, "victims": list(victims)}
+        sc = Sched("hostile-%d" % i, cfg)
+        state = rng.choice(["fresh", "mid", "buffered", "drained", "disc"])
+        to = rng.choice("SC")
+        snd = "C" if to == "S" else "S"
+        if state != "fresh":
+            sc.send(1, snd, 2, 2401)
+            sc.send(1, snd, 1, 1201)
+            sc.send(1, snd, 0, 1300)
+            sc.send(1, snd, 2, 5)
+            sc.add(a="flush", conn=1, side=snd)
+            k = {"mid": 3, "buffered": 9, "drained": 9, "disc": 2}[state]
+            for j in range(k):
+                sc.add(a="deliver", conn=1, to=to, sel=(0 if state != "mid" else rng.randint(0, 5)), keep=False)
+            if state == "drained":
+                sc.add(a="drain", conn=1, side=to)
+            if state == "disc":
+                sc.add(a="api", conn=1, side=to, call="disconnect")
+        # the bystander connection has traffic in flight as well
+        sc.send(2, "C", 2, 1201)
+        sc.send(2, "S", 1, 700)
+        sc.add(a="flush", conn=2, side="C")
+        for kind, b in group:
+            sc.add(a="hostile", conn=1, to=to, hex=b.hex(), shape=kind, ctx=state)
+            if rng.random() < 0.5:
+                sc.add(a="recv", conn=1, side=to, ch=rng.choice([0, 1, 2]))
+        sc.add(a="update", conn=0, side="S", dt=300)
+        sc.add(a="update", conn=1, side="C", dt=300)
+        sc.send(1, "S", 2, 9)
+        sc.send(1, "C", 2, 9)
+        sc.send(2, "S", 2, 1201)
+        sc.backlog = 5000
+        sc.add(a="heal", conn=2, bound=bound(300, 300, 5000, 60000))
+        sc.add(a="round", conn=0, dt=300, n=bound(300, 300, 5000, 60000) + 2)
+        scheds.append(sc.s)
+    return scheds
